@@ -328,8 +328,15 @@ class C19:
         while pos["o"] < len(chunks["o"]) or pos["e"] < len(chunks["e"]):
             avail = [ch for ch in "oe" if pos[ch] < len(chunks[ch])]
             ch = rng.choice(avail)
-            events.append(["w", ch, chunks[ch][pos[ch]]])
-            pos[ch] += 1
+            if rng.random() < 0.12:
+                # the bulk form: stream.writelines([piece, piece, ...]) -- the pieces are consecutive
+                # chunks of the torn stream (they need not be lines)
+                k = min(rng.randint(1, 3), len(chunks[ch]) - pos[ch])
+                events.append(["wl", ch, chunks[ch][pos[ch]:pos[ch] + k]])
+                pos[ch] += k
+            else:
+                events.append(["w", ch, chunks[ch][pos[ch]]])
+                pos[ch] += 1
             r = rng.random()
             if r < 0.08:
                 events.append(["w", ch, ""])
@@ -931,6 +938,27 @@ class Proxy:
             else:
                 o.begin_op(["write", ch, 0], [])
             stream[ch].write(chunk)
+            o.end_op()
+        elif k == "wl":
+            # writelines(): one write() per piece, in order; every piece that completes lines is a
+            # print of its own
+            ch = ev[1]
+            stages = []
+            for chunk in ev[2]:
+                data = self.pending[ch] + chunk
+                parts = data.split("\n")
+                complete, self.pending[ch] = parts[:-1], parts[-1]
+                if complete:
+                    self.probes["lines_completed"] += len(complete)
+                    if ch == "e":
+                        self.probes["stderr_lines"] += len(complete)
+                    stages.append(("print", self._rows_for(ch, complete)))
+            self.pieces[ch] = 1
+            self.probes["writelines_calls"] = self.probes.get("writelines_calls", 0) + 1
+            o.begin_op(["writelines", ch, len(stages)], stages)
+            if stages and o.tracker:
+                o.tracker.print_begin()
+            stream[ch].writelines(list(ev[2]))
             o.end_op()
         elif k == "flush":
             ch = ev[1]
